@@ -431,7 +431,7 @@ def variant_kinds(v, byname):
 
 # constructs excluded from the random stream: each is a recorded finding (or a C01-territory rejection)
 # represented by its witness in corpus/C04
-RANDOM_PROFILE = {"exclude": ("untagged-overlap", "null-payload", "one-tuple")}
+RANDOM_PROFILE = {"exclude": ("untagged-overlap", "null-payload")}
 
 
 def generate(seed, n, profile=None):
